@@ -166,8 +166,23 @@ static void case_write_faults(ByteSource& in, CaseInfo& ci) {
   REQUIRE(ok0, "%s: fault-free run returned %ld but wrote %zu bytes", names[f], n0, len); REQUIRE(bad.empty(), "%s: %s", names[f], bad.c_str());
 }
 static void check(ByteSource& in, CaseInfo& ci) { switch (in.pick({8, 5, 5, 4, 4})) { case 0: case_export_import(in, ci); break; case 1: case_raw(in, ci); break; case 2: case_text(in, ci); break; case 3: case_read_faults(in, ci); break; default: case_write_faults(in, ci); break; } }
+// ---- exhaustive sweep: mpz_export / mpz_import of every value of up to three palette limbs x size 1..16 x order x endian x nails {0,1,7,8*size-1} x alignment {0,1,4} ----
+static uint64_t sweep_count() { return 216ull * 16 * 2 * 3 * 4 * 3; }
+static void sweep_item(uint64_t i, CaseInfo& ci) {
+  Int V = palette_int(i % 216, 3); uint64_t j = i / 216; size_t size = 1 + j % 16; j /= 16; int order = (j % 2) ? 1 : -1; j /= 2; int endian = (int)(j % 3) - 1; j /= 3; size_t nk = j % 4; j /= 4; size_t off = (size_t[]){0, 1, 4}[j % 3];
+  size_t nails = nk == 0 ? 0 : nk == 1 ? 1 : nk == 2 ? std::min<size_t>(7, 8 * size - 1) : 8 * size - 1;
+  ci.d("v=%s size=%zu order=%d endian=%d nails=%zu off=%zu", show(V).c_str(), size, order, endian, nails, off);
+  Z z; mpz_from_int(z, V); size_t ecount; std::vector<unsigned char> e = export_model(V, order, size, endian, nails, ecount);
+  unsigned char* raw = (unsigned char*)malloc(off + e.size() + 1); unsigned char* buf = raw + off; size_t cnt = 12345; void* r = mpz_export(buf, &cnt, order, size, endian, nails, z);
+  bool ok = r == buf && cnt == ecount && memcmp(buf, e.data(), e.size()) == 0;
+  Z back; mpz_set_ui(back, 99); if (ok) mpz_import(back, cnt, order, size, endian, nails, buf); Int B = int_from_mpz(back); const char* wf = mpz_illformed(back); free(raw);
+  REQUIRE(ok, "mpz_export(size=%zu, order=%d, endian=%d, nails=%zu, offset %zu) of %s: wrong words or count %zu (expected %zu)", size, order, endian, nails, off, show(V).c_str(), cnt, ecount);
+  REQUIRE(!wf && B == V, "mpz_import of the exported words (size=%zu, order=%d, endian=%d, nails=%zu) of %s gives %s", size, order, endian, nails, show(V).c_str(), show(B).c_str());
+  REQUIRE(int_from_mpz(z) == V, "mpz_export: operand modified");
+}
 namespace eng {
 PropDef g_prop = {"C17",
   "Cases: mpz_export (exact-size buffer at every misalignment 0..15, or rop=NULL with the block size checked) and mpz_import (nail bits filled with garbage, high zero words) for size 1..16, order +-1, endian -1/0/1, nails 0..8*size-1; mpz_out_raw byte layout, mpz_inp_raw round trip, arbitrary raw headers (claimed size vs bytes present, negative, zero, truncated header; claims up to 2^20); mpz/mpq/mpf out_str -> inp_str through memory streams with byte counts (mpf in power-of-two bases, value compared with the exact value of the printed string). Faults (enumerated exhaustively per generated stream): every truncation point 0..len of a raw / mpz / mpq / mpf text stream, both as end of stream and as a read error from an unbuffered fopencookie reader; every byte position 0..len-1 at which an unbuffered fopencookie writer fails, for mpz_out_raw, mpz/mpq/mpf_out_str and gmp_fprintf. Oracle: refint pack/unpack model of the manual's export/import description, byte-exact model of the raw format, round trip equality; under a fault: raw input returns 0 for every proper prefix, text input returns 0 when no digit was available and otherwise exactly the bytes/value available (a truncated digit string is itself a number), output returns 0 (gmp_fprintf -1); after each fault no leak / allocator contract breach (recording allocator) and the destination can be reassigned and cleared. Non-trivial: value >= 2 words with nails or misalignment / a fault enumeration. Distinct = hash of all decoded choices.",
-  check, setup, {"nails>0", "misaligned_buffer", "endian0", "import:garbage_in_nails", "raw:truncated", "raw:complete", "read_faults", "write_faults", "gmp_fprintf", "mpf_out_str->inp_str"}};
+  check, setup, {"nails>0", "misaligned_buffer", "endian0", "import:garbage_in_nails", "raw:truncated", "raw:complete", "read_faults", "write_faults", "gmp_fprintf", "mpf_out_str->inp_str"}, nullptr, sweep_count, sweep_item,
+  "mpz_export then mpz_import of every value of up to three limbs with limbs from {0,1,2^63-1,2^63,2^64-2,2^64-1} for every size 1..16, order +-1, endian -1/0/+1, nails in {0, 1, 7, 8*size-1} and buffer offsets {0,1,4}: words and count against the format model, round trip"};
 }
